@@ -74,4 +74,28 @@ def guardedBySome (f : Field) : Bool := (candidates f).any (guards f)
 
 def fieldOk (f : Field) : Bool := !f.mutable || f.accesses.isEmpty || guardedBySome f
 
+/-! ### stores through shared elements
+
+What the guarded fields HOLD is shared as well: `l.indexEntries[base]` is a `[]*IndexEntry` that `Read` copies out
+under `l.mu` and uses after the lock is released, so the `*IndexEntry` values and the slices' backing arrays are
+shared by every reader.  The extractor lists every store whose lvalue goes through such an element (a pointer to a
+struct type stored by pointer in a container field of an analysed type, an index into a slice / map of such elements,
+a sub-slice hanging off one) unless the root of the lvalue is a fresh local. -/
+
+structure ElemWrite where
+  owner : String          -- analysed type whose method performs the store ("" = free function / other type: no lock known)
+  elem : String           -- element struct type the store goes through
+  func : String
+  line : Nat
+  locks : List Nat        -- mutexes of `owner` held exclusively at the store
+deriving Repr
+
+/-- a store through a shared element is acceptable only inside a method of an analysed type, holding one of its
+mutexes exclusively, and all stores through the same element type agree on the owner and share a mutex -/
+def elemWriteOk (all : List ElemWrite) (w : ElemWrite) : Bool :=
+  w.owner != "" && !w.locks.isEmpty &&
+    all.all fun w' => w'.elem != w.elem || (w'.owner == w.owner && !(inter w.locks w'.locks).isEmpty)
+
+def elemWritesOk (all : List ElemWrite) : Bool := all.all (elemWriteOk all)
+
 end KafVerif.Lockset
